@@ -25,6 +25,13 @@ class MapCfg(object):
         self.nfine = 4 ** (spord - covord)
         self.npix = self.ncov * self.nfine
 
+    def single_field(self, rng, primary_bias=0.0):
+        """index of a field a single-field map may be taken of (boolean fields: not modelled)"""
+        ok = [i for i, f in enumerate(self.fields) if f != 'b1']
+        if self.primary in ok and rng.random() < primary_bias:
+            return self.primary
+        return rng.choice(ok) if ok else None
+
     def line(self):
         s = "cfg %s kind=%s covord=%d spord=%d" % (self.name, self.kind, self.covord, self.spord)
         if self.kind == 'plain':
@@ -94,9 +101,11 @@ class MapCfg(object):
         if dt in FLT_DTYPES:
             if st == 'default':
                 return None       # neighbours of UNSEEN (1.6e30) make every later sum inexact: not generated
-            if st == '0':
+            # (float32 maps: only the -9999 neighbour — sums of 2^-20-sized and unit-sized values round
+            #  in float32 in an order the exact model cannot predict)
+            if st == '0' and dt == 'f8':
                 return rng.choice(['1^30', '-1^30'])
-            if st == '1^1':
+            if st == '1^1' and dt == 'f8':
                 return '524289^20'                        # 0.5 + 2^-20
             if st == '-9999':
                 return '-159983^4'                        # -9999 + 2^-4
@@ -128,11 +137,22 @@ class MapCfg(object):
             return self.scalar_tok(rng)
         if self.kind == 'packed':
             return rng.choice('TF')
+        if self.kind == 'wide' and self.nbytes >= 2 and rng.random() < 0.15:
+            # bytes that add up to a non-zero multiple of 256 (a row is valid iff ANY byte is non-zero)
+            bs = [0] * self.nbytes
+            i, j = rng.sample(range(self.nbytes), 2)
+            bs[i], bs[j] = rng.choice([(128, 128), (192, 64), (255, 1), (64, 192)])
+            if self.nbytes >= 3 and rng.random() < 0.3:
+                k = next(x for x in range(self.nbytes) if x not in (i, j))
+                bs[i], bs[j], bs[k] = 128, 64, 64
+            top = self.maxbits - 8 * (self.nbytes - 1)            # bits available in the last byte
+            if bs[-1] < 2 ** top:
+                return 'b' + '.'.join(map(str, bs))
         if self.kind == 'wide':
             return 'b' + '.'.join(str(rng.choice([0, 0, 1, 2, 128, 255, rng.randint(0, 255)]))
                                   for _ in range(self.nbytes))
         if self.kind == 'rec':
-            toks = [self.scalar_tok(rng, f) for f in self.fields]
+            toks = [self.scalar_tok(rng, f) if f != 'b1' else rng.choice('01') for f in self.fields]
             if rng.random() < 0.04:
                 t = self.near_sentinel_tok(rng, self.fields[self.primary])
                 if t is not None:
@@ -141,7 +161,7 @@ class MapCfg(object):
         raise ValueError(self.kind)
 
 
-def rand_cfg(rng, name='m1', kinds=None, max_npix=768, min_delta=0, rec_unsigned=True):
+def rand_cfg(rng, name='m1', kinds=None, max_npix=768, min_delta=0, rec_unsigned=True, rec_bool=True):
     kinds = kinds or ['int', 'int', 'flt', 'flt', 'bool', 'packed', 'wide', 'rec']
     k = rng.choice(kinds)
     while True:
@@ -173,15 +193,21 @@ def rand_cfg(rng, name='m1', kinds=None, max_npix=768, min_delta=0, rec_unsigned
         # rec_unsigned=False: known finding F43 (unsigned record fields come back signed from FITS tables)
         fields = [rng.choice(['f8', 'f4', 'i4', 'i8', 'i2', 'u2'] if rec_unsigned else ['f8', 'f4', 'i4', 'i8', 'i2'])
                   for _ in range(nf)]
+        if rec_bool and rng.random() < 0.2:
+            fields[rng.randrange(nf)] = 'b1'              # a boolean field (possibly the primary one)
         pr = rng.randrange(nf)
         if fields[pr] in FLT_DTYPES:
             sent = rng.choice(['default', 'default', '-9999'])
+        elif fields[pr] == 'b1':
+            sent = 'default'
         else:
             sent = rng.choice(['default', 'default', '0', '7'])
         c = MapCfg(name, 'rec', covord, spord, fields=fields, primary=pr, sentinel=sent)
     if rng.random() < 0.2:
         n = rng.randint(1, min(3, c.ncov))
         c.covpix = rng.sample(range(c.ncov), n)
+        if rng.random() < 0.15:
+            c.covpix = c.covpix + [c.covpix[0]]          # a repeated coverage pixel: one block all the same
     return c
 
 
@@ -261,6 +287,12 @@ def bad_upd_line(rng, c):
         return "upd %s op=%s pix=%s val=%s" % (c.name, rng.choice(illegal), ','.join(map(str, pix)), c.val(rng))
     pix = pix + [c.npix + rng.randint(0, 5)]
     return "upd %s op=replace pix=%s val=%s" % (c.name, ','.join(map(str, pix)), c.val(rng))
+
+
+def roundtrip_lines(rng, name, f='pv'):
+    """replace map `name` by what reading its own file gives (storage that does not own its buffer,
+    on-disk byte order, memory-mapped or decompressed arrays): histories continue on it unchanged"""
+    return ['write %s f=%s compress=%s' % (name, f, rng.choice('01')), 'read r=%s f=%s' % (name, f)]
 
 
 def refused_line(rng, c):
